@@ -148,6 +148,16 @@ def big(case, d):
             ref = (np.arange(n, dtype='int64') % 247).astype('uint8')
             src = darr.asarray(os.path.join(d, 'src'), ref, chunklen=40_000_000)
             a = src.copy(path)
+        elif kind in ('widecopy', 'wideasarray'):
+            # ONE row is larger than the 80 MiB default chunk: the guessed chunk length must not drop to 0
+            w = 83_886_081
+            ref = np.empty((2, w), dtype='uint8')
+            ref[0] = 3; ref[1] = 5; ref[:, ::4097] = 9; ref[1, -1] = 7
+            if kind == 'widecopy':
+                src = darr.asarray(os.path.join(d, 'src'), ref, chunklen=1)
+                a = src.copy(path)
+            else:
+                a = darr.asarray(path, ref)
         else:
             raise ValueError(kind)
         fresh = darr.Array(path)
